@@ -1,5 +1,77 @@
-(* C37 -- Text patches map back to the right source positions.  Statements only. *)
-From Coq Require Import ZArith List Bool.
+(* C37 -- Text patches map back to the right source positions.
+   Statements only; the model is Model/TextBuilder.v (compared with /repo/sandbox/grist/textbuilder.py on
+   every run), the proofs are in Proofs/TextBuilder_proofs.v.
+
+   map_back false = Replacer.map_back_patch as it is in the source;
+   map_back true  = with the repair of notes/proposed_fixes/C37-deletion-end.diff.
+   prender b      = the output of b with the provenance of every character, obtained by applying the
+                    patches directly (no offset arrays);  wf_builder b = every Replacer's patches are valid
+                    for its input text and do not overlap. *)
+From Coq Require Import ZArith List Bool Lia.
 Import ListNotations.
 Require Import Grist.Model.TextBuilder Grist.Proofs.TextBuilder_proofs.
 Open Scope Z_scope.
+
+(* ---- the produced text equals applying the patches directly ---- *)
+Theorem C37_replacer_text : forall inner ps t,
+  wf_builder (BReplacer inner ps) -> render inner = Ok t ->
+  render (BReplacer inner ps) = Ok (apply_sorted t (map pcore (sort_patches ps))).
+Proof. exact replacer_text_direct. Qed.
+
+(* ... through any nesting: get_text() never raises and is the text of the provenance rendering *)
+Theorem C37_text_of_nesting : forall b, wf_builder b -> render b = Ok (map fst (prender b)).
+Proof. exact render_prender. Qed.
+
+(* ---- map_back_exact, the full statement (parametrised by the variant of the code) ----
+   A non-empty output range [s,e) all of whose characters are copied from the contiguous range
+   [i, i+(e-s)) of one Text maps back to exactly that range of that Text, through any nesting. *)
+Definition map_back_exact_statement (fixed : bool) : Prop :=
+  forall b s e new path i, wf_builder b -> 0 <= s < e -> e <= len (prender b) ->
+    (forall k, s <= k < e -> snd (znth (prender b) k dcell) = Some (path, i + (k - s))) ->
+    exists t v, leaf_at b path = Some (t, v) /\
+      map_back fixed b (s, e, sub (map fst (prender b)) s e, new)
+      = Ok (Some (t, v, (i, i + (e - s), sub t i (i + (e - s)), new))).
+
+(* The unchanged code violates it: Replacer(Text("ab"), [delete "b"]), output range [0,1) = "a" comes from
+   [0,1) of the Text but is mapped back to [0,2). *)
+Theorem C37_refuted_deletion_end : ~ map_back_exact_statement false.
+Proof.
+  intros H.
+  destruct (H (BReplacer (BText [97; 98] 1) [(1, 2, [98], [])]) 0 1 [81] [] 0) as (t & v & Hl & Hm).
+  - cbn. split; [exact I|]. vm_compute. repeat split; discriminate.
+  - lia.
+  - vm_compute. discriminate.
+  - intros k Hk. assert (k = 0) by lia. subst k. vm_compute. reflexivity.
+  - vm_compute in Hl. inversion Hl; subst t v. vm_compute in Hm. discriminate.
+Qed.
+
+(* With the proposed repair the full statement holds ... *)
+Theorem C37_map_back_exact : map_back_exact_statement true.
+Proof.
+  intros b s e new path i Hwf Hse He Hall.
+  apply endpoints_gen; try assumption; [| | left; reflexivity]; rewrite Hall by lia; do 2 f_equal; lia.
+Qed.
+
+(* ... and even in this stronger form: only the first and the last character of the range have to be
+   copies (of characters i and j-1 of the same Text); what lies between may be anything. *)
+Theorem C37_map_back_endpoints : forall b s e new path i j,
+  wf_builder b -> 0 <= s < e -> e <= len (prender b) ->
+  snd (znth (prender b) s dcell) = Some (path, i) ->
+  snd (znth (prender b) (e - 1) dcell) = Some (path, j - 1) ->
+  exists t v, leaf_at b path = Some (t, v) /\
+    map_back true b (s, e, sub (map fst (prender b)) s e, new) = Ok (Some (t, v, (i, j, sub t i j, new))).
+Proof. intros. apply endpoints_gen; try assumption. left; reflexivity. Qed.
+
+(* The unchanged code, under the narrowest hypothesis that excludes the defect: on the way down no Replacer
+   has an offset-table entry exactly at the range end (no patch that deletes text ends there). *)
+Theorem C37_map_back_exact_partial : forall b s e new path i,
+  wf_builder b -> 0 <= s < e -> e <= len (prender b) ->
+  (forall k, s <= k < e -> snd (znth (prender b) k dcell) = Some (path, i + (k - s))) ->
+  no_entry_at_end b s e ->
+  exists t v, leaf_at b path = Some (t, v) /\
+    map_back false b (s, e, sub (map fst (prender b)) s e, new)
+    = Ok (Some (t, v, (i, i + (e - s), sub t i (i + (e - s)), new))).
+Proof.
+  intros b s e new path i Hwf Hse He Hall Hn.
+  apply endpoints_gen; try assumption; [| | right; exact Hn]; rewrite Hall by lia; do 2 f_equal; lia.
+Qed.
